@@ -71,6 +71,12 @@ func scenarios(tier string) []svc.Scenario {
 		{Name: "converter-data-through-held-view", Converter: true, Program: []string{"import:P1", "addtag:tag/p=cport:1", "view.open:v1", "converters:tag/p=conv", "import:P3", "view.data:v1=0/conv"}},
 		// a tag that uses a mark list inside a sub-query: a mark edit changes its answer for OTHER streams than the marked ones
 		{Name: "subquery-mark-tag", Program: []string{"import:P1+P2", "addtag:mark/m=id:0", "addtag:tag/t=@sub:mark:m id:@sub:id@+1", "markadd:mark/m=1", "markdel:mark/m=0"}},
+		// a converter whose process dies on the first attempt at every stream: the job tries once more
+		{Name: "converter-fails-once", Converter: true, Program: []string{"import:P1", "addtag:tag/p=cport:1", "converters:tag/p=convflaky", "import:P3"}},
+		// a data tag whose alternatives read the output of different converters, decided before the second converter ran
+		{Name: "data-tag-on-two-converters", Converter: true, Program: []string{"import:P1", "addtag:tag/p=cport:1", "addtag:tag/x=cdata.conv:ZZZ or cdata.conv2:FOO1", "converters:tag/p=conv2"}},
+		// a converter on a mark list, the service restarted at every point of the conversion
+		{Name: "restart-converter-on-mark", Converter: true, Workers: 3, Program: []string{"import:P1", "addtag:mark/m=id:0", "converters:mark/m=conv", "restart"}},
 		{Name: "two-tags", Program: []string{"addtag:tag/p=cport:1", "addtag:tag/d=cdata:foo3", "import:P1", "import:P3"}},
 	}
 	if tier == "thorough" {
